@@ -7,7 +7,7 @@ import os
 
 import sympy as sp
 
-from ..astq import Inliner, U, kwarg, raised_class_name, statements
+from ..astq import Inliner, U, kwarg, raised_class_name, statements, store_targets
 from ..cfg import CFG
 from ..index import AnalysisError, walk_no_nested
 from ..normalform import (GuardUnsupported, NFUnsupported, Normalizer, equal, eval_guard, numeric_constants, sym, sym_exec)
@@ -37,20 +37,63 @@ def _burn_in_expr(ctx):
     return f, rets[0]
 
 
+class _OtherSetting(Exception):
+    pass
+
+
+def _subst_setting_locals(fnode):
+    """copy of the function in which a local bound once to a plain settings lookup (`n = self.algo_parameters['n_burn_in_iter']`) is read as
+    that lookup (the binding is dropped): the rules below recognise the configured values by their lookup"""
+    import copy as _copy
+    fn = _copy.deepcopy(fnode)
+    defs = {}
+    for st in statements(fn):
+        for t in store_targets(st):
+            if isinstance(t, ast.Name):
+                defs.setdefault(t.id, []).append(st)
+    subst = {}
+    for name, ds in defs.items():
+        d = ds[0]
+        if len(ds) == 1 and isinstance(d, ast.Assign) and len(d.targets) == 1 and isinstance(d.targets[0], ast.Name) and isinstance(d.value, ast.Subscript) \
+                and U(d.value.value) == "self.algo_parameters" and isinstance(d.value.slice, ast.Constant):
+            subst[name] = d
+
+    class S(ast.NodeTransformer):
+        def visit_Name(self, n):
+            if isinstance(n.ctx, ast.Load) and n.id in subst:
+                return ast.copy_location(_copy.deepcopy(subst[n.id].value), n)
+            return n
+
+    def prune(holder):
+        for field in ("body", "orelse", "finalbody"):
+            body = getattr(holder, field, None)
+            if isinstance(body, list):
+                kept = [b for b in body if b not in subst.values()]
+                body[:] = kept or [ast.copy_location(ast.Pass(), body[0])] if body else body
+                for b in body:
+                    prune(b)
+    if subst:
+        prune(fn)
+        S().visit(fn)
+        ast.fix_missing_locations(fn)
+    return fn
+
+
 def r1_phase(ctx):
     ctx.rule("C05.R1", "memory-less branch taken exactly when iteration - n_burn_in <= 1; _is_burn_in exactly when <= 0", 2)
     bf, bret = _burn_in_expr(ctx)
     f = ctx.ix.func(FIT, "TensorMcmcSaemAlgorithm._maximization_step", "C05.R1")
-    cfg = CFG(f.node)
+    fnode = _subst_setting_locals(f.node)
+    cfg = CFG(fnode)
     # the If whose one branch assigns self.sufficient_statistics = <fresh statistics>
     fresh = None
-    for st in statements(f.node):
+    for st in statements(fnode):
         if isinstance(st, ast.Assign) and isinstance(st.value, ast.Call) and isinstance(st.value.func, ast.Attribute) and st.value.func.attr == "compute_sufficient_statistics":
             fresh = U(st.targets[0])
     if fresh is None:
         raise AnalysisError("C05.R1", "anchor vanished: `sufficient_statistics = model.compute_sufficient_statistics(state)`")
     guard = None
-    for st in statements(f.node):
+    for st in statements(fnode):
         if isinstance(st, ast.If):
             body_assign = [b for b in st.body if isinstance(b, ast.Assign) and U(b.targets[0]) == "self.sufficient_statistics" and U(b.value) == fresh]
             else_assign = [b for b in st.orelse if isinstance(b, ast.Assign) and U(b.targets[0]) == "self.sufficient_statistics" and U(b.value) == fresh]
@@ -117,9 +160,10 @@ def r1_phase(ctx):
 def r2_convex(ctx):
     ctx.rule("C05.R2", "S_k = (1 - e_k) S_(k-1) + e_k s_k with e_k = (k - n_burn_in)^(-power)", 3)
     f = ctx.ix.func(FIT, "TensorMcmcSaemAlgorithm._maximization_step", "C05.R2")
+    fnode = _subst_setting_locals(f.node)
     comp = None
     branch = None
-    for st in statements(f.node):
+    for st in statements(fnode):
         if isinstance(st, ast.If):
             for body in (st.body, st.orelse):
                 for b in body:
@@ -137,7 +181,7 @@ def r2_convex(ctx):
     kvar, vvar = U(gen.target.elts[0]), U(gen.target.elts[1])
     ctx.check(U(dc.key) == kvar, "C05.R2", f, dc.key, "same key", "averaged statistics are stored under another key", construct="key of averaged entry")
     fresh = None
-    for st in statements(f.node):
+    for st in statements(fnode):
         if isinstance(st, ast.Assign) and isinstance(st.value, ast.Call) and isinstance(st.value.func, ast.Attribute) and st.value.func.attr == "compute_sufficient_statistics":
             fresh = U(st.targets[0])
     kk, nn, pp = sp.symbols("k n p", positive=True)
@@ -156,6 +200,11 @@ def r2_convex(ctx):
                 return snew
             if t == vvar:
                 return Sprev
+            # a configured value read under another key (or with a fallback that hides a missing key) is not the configured schedule
+            lookup = e.func.value if (isinstance(e, ast.Call) and isinstance(e.func, ast.Attribute) and e.func.attr == "get" and e.args) else (e.value if isinstance(e, ast.Subscript) else None)
+            if lookup is not None and U(lookup) == "self.algo_parameters":
+                key = e.args[0] if isinstance(e, ast.Call) else e.slice
+                raise _OtherSetting(f"`{t[:70]}`" + (f" (key {U(key)})" if isinstance(key, ast.Constant) else ""))
             return super().tosym(e)
 
     nz = Nz({})
@@ -197,6 +246,10 @@ def r2_convex(ctx):
                     raise NFUnsupported(f"helper {hm.qual} returns nothing")
         gots = [nz.tosym(v_) for v_ in val_exprs]
         got = gots[0]
+    except _OtherSetting as e:
+        ctx.violation("C05.R2", f, comp, f"the step size is computed from {e}: not the configured `n_burn_in_iter` / `burn_in_step_power` - the statistics are averaged with another step size than "
+                      "(k - n_burn_in) ** -burn_in_step_power whenever that value differs", construct="step size settings")
+        return
     except NFUnsupported as e:
         ctx.unknown("C05.R2", f, comp, f"averaging expression outside the supported subset: {e}")
         return
